@@ -39,6 +39,9 @@ def far_values(v, t):
     return []
 
 
+N_SYSTEMATIC = [0]
+
+
 def make_cases(rng, nbase):
     """Systematic: every atom form (and every range shape) and every compound type, each with a
     matching and a non-matching value, in every position; then `nbase` random bases."""
@@ -52,6 +55,7 @@ def make_cases(rng, nbase):
         bases.append((g, t, v0, pg, pat, False))
         for w in far_values(v0, t):
             bases.append((g, t, w, pg, pat, True))
+    n_atoms = len(bases)
     for kind in COMPOUND:
         for _ in range(2):
             g = tgen.Gen(rng)
@@ -72,6 +76,7 @@ def make_cases(rng, nbase):
         bases.append((g, t, v0 if rng.random() < 0.45 else g.perturb(v0, t, 0.6), pg, pat, None))
     cases = []
     k = 0
+    N_SYSTEMATIC[0] = n_atoms
     extra = "(v %s (int 0)) (v %s (str %s)) (m %s %s)" % (tgen.hexs("0"), tgen.hexs('"k"'), tgen.hexs("k"), tgen.hexs("get"), tgen.hexs("field:f"))
     for b, (g, t, v, pg, pat, _) in enumerate(bases):
         for pos in P.POSITIONS:
@@ -87,6 +92,34 @@ def make_cases(rng, nbase):
             wd, wt, wv, wp, ws = P.wrap(pos, g, t, v, pat)
             t3.finish_case(c, g.decls() + "\n" + wd, wt, wv, ws, wp)
             cases.append(c)
+        # one reference level up (atom forms and a sample of the others): comparator = a field of type &T
+        if b < N_SYSTEMATIC[0] or b % 3 == 0:
+            for pos in P.REF_POSITIONS:
+                c = t3.Case()
+                c.id = k
+                k += 1
+                c.base, c.position, c.gen, c.ty, c.value = b, pos, g, t, v
+                c.inner_pattern = pat
+                c.form = tgen.top_form(pat)
+                c.tkind = t[0]
+                c.forms = dict(pg.forms_used)
+                c.meanings = pg.meanings_sexp()[:-1] + " " + extra + ")"
+                # closures are written for the parameter they get in the comparator position (a `&&T`): a position that hands the
+                # pattern a `&T` instead no longer accepts them
+                rpat = pat.replace("x.clone()", "(**x).clone()").replace("|x: &", "|x: &&")
+                if rpat != pat:
+                    import re as _re
+                    for m_ in _re.findall(r"\(p ([0-9a-f]+) (\([^()]*(?:\([^()]*\)[^()]*)*\))\)", c.meanings):
+                        txt_ = tgen.unhexs(m_[0]) if hasattr(tgen, "unhexs") else bytes.fromhex(m_[0]).decode()
+                        if "x.clone()" in txt_:
+                            new_ = txt_.replace("x.clone()", "(**x).clone()").replace("|x:&", "|x:&&").replace("|x: &", "|x: &&")
+                            c.meanings = c.meanings[:-1] + " (p %s %s))" % (tgen.hexs(tgen.squash(new_)), m_[1])
+                wd, wt, wv, wp, ws, asserted, setup = P.wrap_ref(pos, g, t, v, rpat)
+                t3.finish_case(c, g.decls() + "\n" + wd, wt, wv, ws, wp)
+                c.text = asserted + ", " + wp
+                if setup:
+                    c.setup = setup
+                cases.append(c)
     return cases
 
 
@@ -101,9 +134,9 @@ def run(ck):
     dist = {}
     nontriv = set()
     for b, group in by_base.items():
-        ref = group["field"]
-        rk = ref.got[0]
         for pos, c in group.items():
+            ref = group["ref-field" if pos in P.REF_POSITIONS else "field"]
+            rk = ref.got[0]
             gk = c.got[0]
             dist["%s:%s" % (pos, gk)] = dist.get("%s:%s" % (pos, gk), 0) + 1
             if c.form != "wild":
@@ -126,7 +159,7 @@ def run(ck):
                               dict(t3.describe(c), position=pos, form=c.form))
             else:
                 ck.report("run:" + cell, "the program did not run to completion: " + gk, dict(t3.describe(c), position=pos))
-    ck.corr_record("T3 position sweep (the same (value, pattern) wrapped in 17 positions: acceptance by rustc and verdict compared with the struct-field position and with the specification)",
+    ck.corr_record("T3 position sweep (the same (value, pattern) wrapped in 17 positions, and one reference level up in 5 more with the asserted expression written as a borrow / a parenthesised borrow / a variable: acceptance by rustc and verdict compared with the struct-field position and with the specification)",
                    len(cases), len(nontriv), 0, dist,
                    samples=[dict(position=c.position, invocation="assert_struct!(%s)" % c.text, value=c.value_text, outcome=c.got[0]) for c in cases[:3]],
                    rule="seeded (type, value, pattern) bases x {field, root, tuple element, variant element, slice element, set element, map value, Ok, Err, nested field, tuple index, index, deref, method result, wildcard-struct field, struct-variant field, method result returned by value}; distinct = distinct (invocation, value); non-trivial = inner pattern is not `_`")
